@@ -1414,7 +1414,7 @@ async fn inbound_replay() {
 // effective send-max) and the real PeerSession::negotiate_gr / negotiate_llgr, from BOTH ends.
 //
 // Input (VERIF_IN, must end ".neg.in"), one case per line:
-//   fam  <mpL> <apL> <enhL> <mpR> <apR> <enhR>      lists "a,b" / "-" ; ap "fam:mode;fam:mode" / "-"
+//   fam  <mpL> <apL> <enhL> <mpR> <apR> <enhR> <ordL> <ordR>     lists "a,b" / "-" ; ap "fam:mode;fam:mode" / "-"
 //   scal <as4L> <extL> <as4R> <extR>
 //   gr   <onL> <nL> <timeL> <famsL> <onR> <nR> <timeR> <famsR>
 //   llgr <onL> <t4L> <tvL> <onR> <t4R> <tvR>           (99999 = family absent)
@@ -1431,8 +1431,26 @@ fn neg_list(s: &str) -> Vec<Family> {
     if s == "-" { vec![] } else { s.split(',').map(neg_fam).collect() }
 }
 
-fn neg_fam_caps(mp: &str, ap: &str, enh: &str, asn: u32) -> Vec<packet::Capability> {
+fn neg_fam_caps(mp: &str, ap: &str, enh: &str, asn: u32, ord: &str) -> Vec<packet::Capability> {
     let mut v: Vec<packet::Capability> = neg_list(mp).into_iter().map(packet::Capability::MultiProtocol).collect();
+    if ord != "mp_ap" {
+        // ADD-PATH first; "mp_ap_mp" repeats the Multiprotocol capabilities after it as well
+        let mps = v.clone();
+        let mut w: Vec<packet::Capability> = if ord == "mp_ap_mp" { mps.clone() } else { Vec::new() };
+        if ap != "-" {
+            let e: Vec<(Family, u8)> = ap
+                .split(';')
+                .map(|x| {
+                    let (f, m) = x.split_once(':').unwrap();
+                    (neg_fam(f), m.parse().unwrap())
+                })
+                .collect();
+            w.push(packet::Capability::AddPath(e));
+        }
+        w.extend(mps);
+        w.push(packet::Capability::FourOctetAsNumber(asn));
+        return w;
+    }
     if ap != "-" {
         let e: Vec<(Family, u8)> = ap
             .split(';')
@@ -1542,8 +1560,8 @@ async fn negotiate_replay() {
         }
         let res = match t[0] {
             "fam" => {
-                let l = neg_fam_caps(t[1], t[2], t[3], 65001);
-                let r = neg_fam_caps(t[4], t[5], t[6], 65002);
+                let l = neg_fam_caps(t[1], t[2], t[3], 65001, t[7]);
+                let r = neg_fam_caps(t[4], t[5], t[6], 65002, t[8]);
                 format!(
                     "{{\"l\":{},\"r\":{}}}",
                     neg_fam_json(neg_fsm_side(&l, &r, 65001, 65002)),
@@ -1805,17 +1823,25 @@ async fn admission_replay() {
                 }
                 "rclose" => {
                     let id: usize = t[1].parse().unwrap();
-                    sess[id - 1].remote = None; // drops the remote socket
-                    "ok".into()
+                    if id > sess.len() {
+                        "diverged".into() // the implementation accepted fewer connections than the model
+                    } else {
+                        sess[id - 1].remote = None; // drops the remote socket
+                        "ok".into()
+                    }
                 }
                 "end" => {
                     let id: usize = t[1].parse().unwrap();
-                    sess[id - 1].remote = None;
-                    let h = sess[id - 1].handle.take().unwrap();
-                    match tokio::time::timeout(Duration::from_millis(WAIT_MS), h).await {
-                        Ok(Ok(())) => "ok".into(),
-                        Ok(Err(_)) => "panic".into(),
-                        Err(_) => "stuck".into(),
+                    if id > sess.len() || sess[id - 1].handle.is_none() {
+                        "diverged".into()
+                    } else {
+                        sess[id - 1].remote = None;
+                        let h = sess[id - 1].handle.take().unwrap();
+                        match tokio::time::timeout(Duration::from_millis(WAIT_MS), h).await {
+                            Ok(Ok(())) => "ok".into(),
+                            Ok(Err(_)) => "panic".into(),
+                            Err(_) => "stuck".into(),
+                        }
                     }
                 }
                 x => panic!("harness: op {x}"),
